@@ -159,6 +159,24 @@ def gen_multi(rng, n):
     return out
 
 
+def gen_onact(rng, n):
+    """the application sends spontaneous data from inside the ACTIVATED notification (what a server with fresh process data does):
+    nothing of it may be on the line before STARTDT con"""
+    out = []
+    for i in range(n):
+        k = rng.choice([1, 3, 12])
+        lines = header(k, 8, 0)[:2] + ["sendonact 1"] + header(k, 8, 0)[2:]
+        cnt = dict(p=0, e=0)
+        seq = []
+        for _ in range(rng.range(2, 10)):
+            name = rng.choice(["startdt", "startdt", "stopdt", "s_good", "enq", "i_good", "testfr_act"])
+            seq.append(name)
+            lines += stim_lines(name, 0, cnt)
+        lines.append("tick 2")
+        out.append(("a%d" % i, lines, ("onact",) + tuple(seq)))
+    return out
+
+
 def gen_random(rng, n, length):
     out = []
     for i in range(n):
@@ -338,8 +356,9 @@ def run(ck):
     depth, limit = (3, 1500) if quick else (4, 20000)
     scripts = gen_directed() + gen_exhaustive(depth, rng, limit) + gen_random(rng, 150 if quick else 3000, 60)
     multi = gen_multi(rng, 60 if quick else 1500)       # the extracted model follows one connection slot: oracle only for these
-    nomodel = {sid for sid, _, _ in multi}
-    scripts += multi
+    onact = gen_onact(rng, 30 if quick else 600)
+    nomodel = {sid for sid, _, _ in multi} | {sid for sid, _, _ in onact}
+    scripts += multi + onact
     ck.count("scripts", len(scripts))
     rc = runner.run_batch(h, [(sid, l) for sid, l, _ in scripts], timeout=3600)
     rm = runner.run_batch(m, [(sid, l) for sid, l, _ in scripts], timeout=3600) if m else {}
